@@ -7,6 +7,7 @@ import re
 
 from harness import projgen, tlc
 from harness.checks import scan_common as sc
+from harness.checks import wild_common as wc
 from harness.result import CheckResult
 
 ASSUMPTIONS = [
@@ -126,13 +127,16 @@ def run(ctx):
         p = projgen.random_project(rng, max_depth=rng.choice([2, 3, 4]), odd=True, externals=False,
                                    positions=False)
         specs.append(episode_for(p, rng, n_entries=4))
+    # real source trees found on this machine (harness/wild.py), abstracted independently of pytestarch
+    wspecs, wtrees = wc.specs(ctx, random.Random(ctx.seed * 7919 + 100), "C08")
+    specs += wspecs
     tr, episodes, fails = sc.run_and_validate(specs)
     st = sc.stats(episodes)
     removed = sum(1 for ep in episodes for e in ep if e["k"] == "scan" and e["excl"]["kind"] != "none"
                   and len(e["modules"]) < len(ep[1]["modules"]))
     if not st["law_instances"].get("excl") or not removed:
         raise tlc.MachineryError(f"vacuous run: {st}")
-    cov = {"states": mc.distinct + g.distinct + tr.states, "transitions": mc.generated + g.generated + tr.transitions,
+    cov = {"real_source_trees": wtrees, "states": mc.distinct + g.distinct + tr.states, "transitions": mc.generated + g.generated + tr.transitions,
            "model_states": mc.distinct + g.distinct, "traces_validated_against_impl": len(episodes),
            "trace_events": tr.events, "glob_patterns_exhaustive": npat, "glob_pattern_subject_pairs": pairs,
            "glob_alphabet": alphabet, "glob_max_pattern_len": maxp, "glob_max_subject_len": maxs,
